@@ -14,6 +14,7 @@ structure State where
   ac : ACache := {}
   now : Int := 0
   cut : Meta := {}
+  sys : Sys := {}          -- the descent event system (`ev` ops)
 
 /-- an op-line instant; a trailing `~` says the WALL clock had been stepped back when
 it was read. Leases are elapsed time: the model ignores the mark. -/
@@ -40,6 +41,25 @@ def parseNS (s : String) : Option (List (Nat × Bool)) :=
 def anchorFirst : List (Nat × Bool) → List (Nat × Bool)
   | [] => []
   | (t, _) :: rest => (t, true) :: rest
+
+/-- `7.3.1` (leaf first) ↦ `[1, 3, 7]` (root first); `.` is the root -/
+def parseName (s : String) : Option Name :=
+  if s == "." then some [] else ((s.splitOn ".").filter (· ≠ "")).reverse.mapM String.toNat?
+
+def showName (n : Name) : String :=
+  if n.isEmpty then "." else ".".intercalate (n.reverse.map toString)
+
+/-- deadlines of the event system are whole seconds -/
+def showSec : Deadline → String
+  | none => "z"
+  | some t => toString (t / sec)
+
+def showTop (s : Sys) : String :=
+  match s.stack with
+  | [] => "idle"
+  | r :: _ => s!"z={showName r.zone} cut={showSec r.cut} meta={showSec s.cut.cut}"
+
+def evStep (st : State) (ev : Ev) : State := { st with sys := SdnsVerif.Model.Lease.step maxTTL st.sys ev }
 
 def step (st : State) (w : List String) : State × String :=
   match w with
@@ -120,6 +140,49 @@ def step (st : State) (w : List String) : State × String :=
     match parseI stored, ttl.toInt?, parseT cut, parseI now with
     | some stored, some ttl, some cut, some now => (st, toString (remaining stored ttl cut now))
     | _, _, _, _ => (st, "bad-op")
+  | ["ev", "new"] => ({ st with sys := {} }, "ok")
+  | ["ev", "tick", n] =>
+    match n.toNat? with
+    | some n => (evStep st (.tick (n * 1000000000)), "ok")
+    | none => (st, "bad-op")
+  | ["ev", kind, q] =>
+    match parseName q with
+    | some q =>
+      if kind == "purge" then (evStep st (.purge q), "ok") else
+      if kind == "fin" then (st, "bad-op") else
+      let ev? : Option Ev := if kind == "start" then some (.start q) else if kind == "sub" then
+        (if st.sys.stack.isEmpty then some (.start q) else some (.substart q)) else if kind == "chase" then
+        (if st.sys.stack.isEmpty then some (.start q) else some (.chase q)) else none
+      match ev? with
+      | some ev => let st' := evStep st ev; (st', showTop st'.sys)
+      | none => (st, "bad-op")
+    | none =>
+      if kind == "fin" then
+        match parseBool q with
+        | some u =>
+          match st.sys.stack with
+          | [] => (st, "idle")
+          | _ => let st' := evStep st (.finish u); (st', showTop st'.sys)
+        | none => (st, "bad-op")
+      else (st, "bad-op")
+  | ["ev", "ref", z, ttls] =>
+    match parseName z, parseList ttls with
+    | some z, some ttls =>
+      match st.sys.stack with
+      | [] => (st, "idle")
+      | r :: _ =>
+        if ttls.isEmpty then (st, "idle") else
+        if !progressing r.zone z r.qname then (st, "rejected " ++ showTop st.sys) else
+        let st' := evStep st (.referral z ttls [])
+        let lease := match findEntry st'.sys.delegs z with
+          | some e => toString (e.expiresAt / sec)
+          | none => "none"
+        (st', showTop st'.sys ++ " lease=" ++ lease)
+    | _, _ => (st, "bad-op")
+  | ["ev", "ans"] =>
+    match st.sys.stack with
+    | [] => (st, "idle")
+    | _ => (evStep st (.answer 0), "cut=" ++ showSec st.sys.cut.cut)
   | "l3" :: _ => (st, "unmodelled")
   | _ => (st, "bad-op")
 
